@@ -1,7 +1,7 @@
 """C20 - intersection returns exactly the parameter pairs where the curves meet (segments and polylines)."""
 import random
 
-from common import F, cq, cql, cqll, cres, clist, ctuple, fsl, fs, pts_json
+from common import F, cnat, copt, cq, cql, cqll, cres, clist, ctuple, fsl, fs, pts_json
 
 PREWARM = False      # see impl_runner: no float pre-run for this stream
 COQ_MODULE = "NurbsV.Check.C20"
@@ -10,7 +10,9 @@ CASE_TYPE = "case"
 SHARD = 120
 RULE = ("pairs of planar polylines (1-4 segments each, dyadic vertices and knots): transversal crossings inside the pieces, "
         "several crossings, crossings at vertices, disjoint curves (far apart, near misses, parallel pieces) and curves "
-        "with overlapping bounding boxes that do not meet; non-trivial = at least one crossing or a near miss")
+        "with overlapping bounding boxes that do not meet, misses by 3e-6 .. 5e-4 (an end of B just off a piece of A); a "
+        "straight segment A stored as a rational quadratic with an interior knot, collinear control points and random "
+        "positive weights (same point set, monotone parameter); non-trivial = at least one crossing or a near miss")
 
 
 def cross(o, a, b):
@@ -72,7 +74,40 @@ def gen(tier, seed):
         na, nb = rnd.randint(1, 4), rnd.randint(1, 4)
         ka, Pa = poly(rnd, na)
         kb, Pb = poly(rnd, nb)
-        mode = rnd.choice(["random", "random", "apart", "parallel", "vertex"])
+        mode = rnd.choice(["random", "random", "apart", "parallel", "vertex", "tiny_gap", "rational_line"])
+        ra = None
+        if mode == "tiny_gap":
+            # B starts just off an interior point of a piece of A, on its normal, and walks away from it
+            i = rnd.randrange(na)
+            p, q = Pa[i], Pa[i + 1]
+            d = [q[0] - p[0], q[1] - p[1]]
+            n = [-d[1], d[0]]
+            t = F(rnd.randint(1, 3), 4)
+            foot = [p[0] + t * d[0], p[1] + t * d[1]]
+            nn = n[0] * n[0] + n[1] * n[1]
+            eps = None
+            for k in rnd.sample(range(8, 24), 16):
+                e = F(1, 2 ** k)
+                if F(9, 10 ** 12) < e * e * nn < F(25, 10 ** 8):
+                    eps = e
+                    break
+            if eps is None:
+                continue
+            v = [foot[0] + eps * n[0], foot[1] + eps * n[1]]
+            w = [v[0] + n[0] * F(rnd.randint(1, 4), 4) + d[0] * F(rnd.randint(-2, 2), 4),
+                 v[1] + n[1] * F(rnd.randint(1, 4), 4) + d[1] * F(rnd.randint(-2, 2), 4)]
+            Pb = [v, w]
+            kb = [F(0), F(rnd.randint(1, 8), 4)]
+            if rnd.random() < 0.5:
+                Pb, kb = [w, v], kb
+        elif mode == "rational_line":
+            ka, Pa = poly(rnd, 1)
+            lam = sorted(rnd.sample([F(j, 8) for j in range(1, 8)], 2))
+            p, q = Pa
+            ctrl = [p] + [[p[0] + l * (q[0] - p[0]), p[1] + l * (q[1] - p[1])] for l in lam] + [q]
+            mid = ka[0] + (ka[1] - ka[0]) * F(rnd.randint(1, 3), 4)
+            ra = {"U": fsl([ka[0]] * 3 + [mid] + [ka[1]] * 3), "p": 2, "P": pts_json(ctrl),
+                  "W": fsl([F(rnd.randint(1, 6), rnd.choice((1, 2))) for _ in range(4)])}
         if mode == "apart":
             Pb = [[x + F(40), y] for x, y in Pb]
         elif mode == "parallel":
@@ -93,13 +128,15 @@ def gen(tier, seed):
         m = meets(Pa, Pb)
         if not m:
             g = min(seg_gap2(Pa[i], Pa[i + 1], Pb[j], Pb[j + 1]) for i in range(len(Pa) - 1) for j in range(len(Pb) - 1))
-            if g < F(1, 10 ** 6):
-                continue          # not a clear miss
+            if g < F(9, 10 ** 12):
+                continue          # not a clear miss (closer than 3e-6)
+            if mode != "tiny_gap" and g < F(1, 10 ** 6):
+                continue
             near = g < 1
         else:
             near = False
-        cases.append({"ka": fsl(ka), "Pa": pts_json(Pa), "kb": fsl(kb), "Pb": pts_json(Pb), "mode": mode,
-                      "elevate": rnd.choice((0, 0, 0, 1, 2, 3)),
+        cases.append({"ka": fsl(ka), "Pa": pts_json(Pa), "kb": fsl(kb), "Pb": pts_json(Pb), "mode": mode, "ra": ra,
+                      "elevate": rnd.choice((0, 0, 0, 1, 2, 3)) if ra is None else rnd.choice((0, 2)),
                       "meets": m, "near_miss": near})
     return cases
 
@@ -114,6 +151,10 @@ def impl(case):
         ks = [float(k) for k in nums(ks)]
         return Curve([ks[0]] + ks + [ks[-1]], [np.array([float(v) for v in nums(pt)]) for pt in P])
     A, B = build(case["ka"], case["Pa"]), build(case["kb"], case["Pb"])
+    if case.get("ra"):
+        ra = case["ra"]
+        A = Curve([float(k) for k in nums(ra["U"])], [np.array([float(v) for v in nums(pt)]) for pt in ra["P"]])
+        A.weights = [float(w) for w in nums(ra["W"])]
     # the same curves stored in a non-minimal form (degree raised): the answer must not change and the operands stay as they are
     if case.get("elevate", 0) & 1:
         A.degree_increase(1)
@@ -126,7 +167,8 @@ def impl(case):
 
 
 def emit(case, out):
-    return ctuple(cql(case["ka"]), cqll(case["Pa"]), cql(case["kb"]), cqll(case["Pb"]),
+    ra = copt(case.get("ra"), lambda c: ctuple(cql(c["U"]), cnat(c["p"]), cqll(c["P"]), copt(c["W"], cql)))
+    return ctuple(cql(case["ka"]), cqll(case["Pa"]), ra, cql(case["kb"]), cqll(case["Pb"]),
                   cres(out["r"], lambda ps: clist(ps, lambda p: ctuple(cq(p[0]), cq(p[1])))),
                   "true" if out["same"] else "false")
 
